@@ -273,3 +273,62 @@ def run(ck, prog):
 
 
 EXPLANATION += (' Elastic net: the n targets stored into the padded vector are y_i - mean(y) (found and fixed). Termination: the exit test of every counter loop compares a counter that advances (found and fixed: the interior-point line search advanced its bound instead).')
+
+
+# ------------------------------------------------------------------ the stopping test is relative
+_run_pre_relgap = run
+
+
+def relative_gap(ck, prog):
+    """'terminate near the optimum of their stated objective' at every scale of the targets: the stopping test compares the
+    duality gap with the dual objective through the tolerance (gap / dobj < tol). Flooring the dual objective by a constant
+    (`max(dobj, 1)`) turns it into an absolute gap test whenever the objective is small (targets with a small spread): the
+    solver then stops early. Rule: no comparison that involves the `tol` argument contains max/min of a data quantity with a
+    non-zero constant."""
+    from sa.match import Zero
+    from sa.prov import subterms
+    rule, inst = "E4-scale", "InteriorPointOptimizer::optimize: the stopping test against tol is purely relative"
+    bs = prog.find(r"InteriorPointOptimizer::<T, M>::optimize$")
+    if len(bs) != 1:
+        ck.violation(rule, inst, "optimize", "", expected="anchor exists", found=f"{len(bs)} bodies")
+        return
+    b = bs[0]
+    cx = BodyCtx.of(b)
+    tol_args = {i for i in range(1, b.arg_count + 1) if (b.local_name(i) or "") in ("tol", "tolerance")}
+    zero = Zero()
+    def is_const(x):
+        return (x[0] == "call" and not x[2] and x[1].endswith(("::one", "::two", "::half", "::epsilon"))) or x[0] == "const" or \
+            (x[0] == "call" and x[1].endswith("::unwrap") and x[2] and x[2][0][0] == "call" and x[2][0][1].endswith(("::from", "::from_f64"))
+             and x[2][0][2] and x[2][0][2][0][0] == "const")
+
+    def floored(d):
+        return d[0] == "call" and d[1].endswith(("::max", "::min")) and len(d[2]) == 2 and any(is_const(x) and not zero(x) for x in d[2])
+    is_tol = lambda t: t[0] == "arg" and t[1] in tol_args
+    n = 0
+    for c in cx.cmps:
+        # the two shapes of the test: gap / D ? tol   and   gap ? tol * D
+        D = None
+        for (A, B) in ((c.lhs, c.rhs), (c.rhs, c.lhs)):
+            if is_tol(B) and A[0] == "call" and A[1].endswith("Div::div") and len(A[2]) == 2:
+                D = A[2][1]
+            if B[0] == "call" and B[1].endswith("Mul::mul") and len(B[2]) == 2 and any(is_tol(x) for x in B[2]):
+                D = [x for x in B[2] if not is_tol(x)][0]
+        if D is None:
+            continue
+        n += 1
+        if floored(D):
+            ck.violation(rule, inst, b.path, c.where, ordinal=n, expected="gap and dual objective are compared through tol only (a ratio, scale-free)",
+                         found=f"the quantity the gap is measured against is `{render(D)[:60]}`: an absolute floor - for small objectives the "
+                               f"criterion is no longer relative")
+        else:
+            ck.ok(rule, inst, b.path, c.where, f"`{render(c.lhs)[:50]} {c.rel} {render(c.rhs)[:30]}`")
+    if n == 0:
+        ck.note(f"{inst}: no comparison involving the tolerance argument: no instance")
+
+
+def run(ck, prog):
+    _run_pre_relgap(ck, prog)
+    relative_gap(ck, prog)
+
+
+EXPLANATION += (' The stopping test against tol measures the gap against the dual objective itself, not against max/min(dual objective, constant) (E4-scale; three independent seeds).')
